@@ -16,6 +16,16 @@ source is not found - a refactor is never an alarm; the result then says `extrac
                   write:<file>  first `path.join(<CONST>)` of every top-level file, with the constant resolved to its
                               string value (`metainfo.plist`, ...), `write:layers` for `layer.save_with_options(`,
                               `write:data` / `write:images` for `path.join(DATA_DIR)` / `path.join(IMAGES_DIR)`
+                  fs:<call>   a file-system call in a statement in front of the wipe (content, not shape: the tie
+                              theorem FAILS on it)
+                  return-ok   every early `return Ok(..)` of the function, at its position (the tie theorem demands
+                              that there is none: a write behind it would be unreachable)
+                The part of the function in front of the wipe is read STRICTLY: every top-level statement there must be
+                one of the five validator shapes (whole statement, whitespace-normalised), a pure binding from the
+                explicit list PURE_BINDINGS, or contain a file-system call / early return (emitted as a step).  Any
+                other statement - a helper call, a reworded validator - is an UNKNOWN SHAPE: the section falls back to
+                the pinned copy with the reason.  Policy: unknown shape => pinned; known shape, other content => the
+                theorem fails.
   loadSwitches  for `fn load_impl`: which `request.<switch>` guards which file or directory
                 (`request.lib && lib_path.exists()` with `let lib_path = path.join(LIB_FILE)`, ...,
                 `request.data && path.join(DATA_DIR).exists()`), constants resolved, sorted by switch name
@@ -78,6 +88,53 @@ def lean_list(words):
     return "[" + ", ".join('"%s".toList' % w for w in words) + "]"
 
 
+def statements(body):
+    """top-level statements of a `{ ... }` function body: (start offset, text) with whitespace collapsed"""
+    assert body[0] == "{"
+    out, depth, par, start, i, n = [], 0, 0, 1, 1, len(body) - 1
+    while i < n:
+        c = body[i]
+        if c in "([":
+            par += 1
+        elif c in ")]":
+            par -= 1
+        elif c == "{":
+            depth += 1
+        elif c == "}":
+            depth -= 1
+            if depth == 0 and par == 0:
+                rest = body[i + 1:n].lstrip()
+                if not (rest.startswith("else") or rest[:1] in (";", ".", "?")):
+                    out.append((start, body[start:i + 1]))
+                    start = i + 1
+        elif c == ";" and depth == 0 and par == 0:
+            out.append((start, body[start:i + 1]))
+            start = i + 1
+        i += 1
+    tail = body[start:n]
+    if tail.strip():
+        out.append((start, tail))
+    res = []
+    for off, text in out:
+        lead = len(text) - len(text.lstrip())
+        res.append((off + lead, re.sub(r"\s+", " ", text).strip()))
+    return res
+
+
+# whole-statement shapes of the five validation steps (whitespace-normalised source text)
+VALIDATOR_SHAPES = [
+    ("version", r"if self\.meta\.format_version != FormatVersion::V3 \{ return Err\(FontWriteError::Downgrade\); \}"),
+    ("objectlibs", r"if self\.lib\.contains_key\(PUBLIC_OBJECT_LIBS_KEY\) \{ return Err\(FontWriteError::PreexistingPublicObjectLibsKey\); \}"),
+    ("groups", r"validate_groups\(&self\.groups\)\.map_err\(FontWriteError::InvalidGroups\)\?;"),
+    ("fontinfo", r"self\.font_info\.validate\(\)\.map_err\(FontWriteError::InvalidFontInfo\)\?;"),
+    ("force", r"for \(path, entry\) in self\.data\.iter\(\)\.chain\(self\.images\.iter\(\)\) \{ if let Err\(source\) = entry "
+              r"\{ return Err\(FontWriteError::InvalidStoreEntry \{ path: path\.clone\(\), source \}\); \};? \}"),
+]
+# statements in front of the wipe that are known to have no effect
+PURE_BINDINGS = [r"let path = path\.as_ref\(\);", r"let options = &?\w+;"]
+FS_CALLS = r"\b(remove_dir_all|remove_dir|remove_file|create_dir_all|create_dir|rename|copy|write_xml_to_file|set_permissions)\s*\(|\bfs::write\s*\(|\bFile::create\s*\("
+
+
 SAVE_FILES = ["METAINFO_FILE", "FONTINFO_FILE", "LIB_FILE", "GROUPS_FILE", "KERNING_FILE", "FEATURES_FILE",
               "LAYER_CONTENTS_FILE"]
 
@@ -104,6 +161,30 @@ def sec_save_steps(src, consts):
         if not m:
             raise NotFound("save_impl step " + label)
         found.append((m.start(), label))
+    # strict reading of everything in front of the wipe
+    stmts = statements(body)
+    wipe_at = next((k for k, (_, t) in enumerate(stmts) if "remove_dir_all" in t), None)
+    if wipe_at is None:
+        raise NotFound("save_impl: top-level statement with remove_dir_all")
+    known = {l: off for off, l in found}
+    for off, text in stmts[:wipe_at]:
+        if any(re.fullmatch(shape, text) for _, shape in VALIDATOR_SHAPES):
+            continue
+        if any(re.fullmatch(b, text) for b in PURE_BINDINGS):
+            continue
+        m = re.search(FS_CALLS, text)
+        if m:
+            call = re.sub(r"[^A-Za-z_:]", "", m.group(0))
+            found.append((off, "fs:" + call))
+            continue
+        if re.search(r"\breturn\s+Ok\s*\(", text):
+            continue  # emitted below, with every other early return
+        raise NotFound("save_impl: statement of unknown shape in front of the wipe: " + text[:70])
+    # every validator anchor in front of the wipe must sit in a statement of its known shape (checked above); early
+    # returns anywhere in the function are steps
+    for m in re.finditer(r"\breturn\s+Ok\s*\(", body):
+        found.append((m.start(), "return-ok"))
+    del known
     found.sort()
     steps = [l for _, l in found]
     return ("/-- the recognisable steps of `Font::save_impl`, in source order -/\n"
